@@ -118,9 +118,11 @@ def handle (st : St) (fam : String) (rhs : String) : P Out := do
   | "dtcmp" =>
     let u1 ← int; let ns1 ← int; let o1 ← int; let u2 ← int; let ns2 ← int; let o2 ← int
     -- `==` and `partial_cmp` of two zoned date-times (built with from_timespec_and_local)
-    let _ := o1; let _ := o2
-    let c := cmpLex [u1, ns1] [u2, ns2]
-    pure { model := s!"{if c == 0 then 1 else 0} {c}" }
+    let mk (u ns o : Int) := DateTime.fromTimespecAndLocal u ns { utOffset := o, isDst := false, name := none }
+    let m := match mk u1 ns1 o1, mk u2 ns2 o2 with
+      | .ok a, .ok b => s!"{if a.beq b then 1 else 0} {a.cmp b}"
+      | _, _ => "Err:Construct"
+    pure { model := m }
   | "rulenew" =>
     let (std, dst, ds, st', de, et) ← altRaw
     let m := liftRule (AlternateTime.new std dst ds st' de et)
